@@ -300,9 +300,43 @@ func runPedersen(t *core.Tape, tier string, info *core.RunInfo, protocol bool) *
 				want--
 			}
 		}
+		// scenario bias: ABSENCES ONLY - some participants (within the tolerated number) never show up,
+		// everybody else is honest; in a resharing the absent ones are taken among the pure newcomers
+		// first. The bounded-liveness oracle then applies: every live participant completes, for every
+		// delivery order (seed C11q: fast-sync, an honest newcomer that holds the justifications of
+		// all dealers - who all had to justify because of the absent newcomer - before its own timeout)
+		absentOnly := false
+		scn3 := 120
+		if protocol && w.reshare && w.fast {
+			scn3 = 400 // the early-packet paths of fast-sync exist only there
+		}
+		if forced < 0 && len(pair) == 0 && t.Bool("cfg.scn3", scn3) {
+			absentOnly = true
+			want := 1 + t.Intn("cfg.scn3", 2)
+			for pass := 0; pass < 2 && want > 0; pass++ {
+				for _, k := range t.Perm("cfg.scn3", len(w.parties)) {
+					p := w.parties[k]
+					if want == 0 || p.faulty != "" || (pass == 0 && p.inOld()) {
+						continue
+					}
+					if (p.inOld() && budgetOld == 0) || (p.inNew() && budgetNew == 0) {
+						continue
+					}
+					if p.inOld() {
+						budgetOld--
+					}
+					if p.inNew() {
+						budgetNew--
+					}
+					p.faulty, p.crashRound = "crash", 0
+					want--
+				}
+			}
+			info.Config["scenario"] = "absences-only"
+		}
 		for _, k := range t.Perm("cfg.faulty", len(w.parties)) {
 			p := w.parties[k]
-			if k == forced || pair[k] || !t.Bool("cfg.faulty", 500) {
+			if absentOnly || k == forced || pair[k] || !t.Bool("cfg.faulty", 500) {
 				continue
 			}
 			if (p.inOld() && budgetOld == 0) || (p.inNew() && budgetNew == 0) {
